@@ -419,6 +419,10 @@ func c11Run(c Case) (Result, error) {
 		if panicked {
 			return Result{}, implViolation("decoder panic: %s", pmsg)
 		}
+		// decoded objects are values: the caller's buffer is overwritten before the object is used
+		for i := range inp {
+			inp[i] ^= 0xff
+		}
 		ok := err == nil
 		enc, encc := "", ""
 		if ok {
@@ -476,6 +480,18 @@ func c11Run(c Case) (Result, error) {
 		if h == nil || h.Size() < 32 {
 			signH = hash.NewSHA2_256()
 		}
+		// the caller's hasher is not fresh in every other case: bytes written earlier (and a ComputeHash on it)
+		// must not reach the digest that is signed or verified
+		dirty := func(hh hash.Hasher) {
+			if hh != nil && (len(msg)+len(in.Mut))%2 == 1 {
+				if len(msg)%3 == 0 {
+					_ = hh.ComputeHash([]byte("x")) // a finished computation left in the object
+				} else {
+					_, _ = hh.Write([]byte("left over from an earlier use"))
+				}
+			}
+		}
+		dirty(signH)
 		sig, err := sk.Sign(msg, signH)
 		if err != nil {
 			return Result{}, implViolation("Sign failed: %v", err)
@@ -646,7 +662,9 @@ func c11Run(c Case) (Result, error) {
 		var verr, verr2 error
 		sig0, vmsg0 := append([]byte{}, sig...), append([]byte{}, vmsg...)
 		panicked, pmsg := catch(func() {
+			dirty(h)
 			ok, verr = pk.Verify(sig, vmsg, h)
+			dirty(h)
 			ok2, verr2 = pk.Verify(sig, vmsg, h)
 		})
 		if panicked {
